@@ -248,14 +248,25 @@ def install(reg):
     def emcee_chain(I, a, k, n):
         fl = k.get("flat", B(False))
         if I.is_true(fl):
-            m = z3.Int(fresh("n_chain_rows"))
-            I.path.assume(m >= 1, check=False)
-            return base_arr(fresh("flat_chain"), "row", m)
+            if "flat_chain" not in a[0].f:
+                m = z3.Int(fresh("n_chain_rows"))
+                I.path.assume(m >= 1, check=False)
+                a[0].f["flat_chain"] = base_arr(fresh("flat_chain"), "row", m)
+            return a[0].f["flat_chain"]
         return Obj("Chain", {"last": a[0].f["last"]})
+
+    def emcee_log_prob(I, a, k, n):
+        assumed(I, "emcee get_log_prob(flat=True): the values of the target the sampler was constructed with, at the states get_chain(flat=True) returns (A-KERNEL)")
+        if not I.is_true(k.get("flat", B(False))):
+            raise Unsupported("get_log_prob(flat=False)")
+        o = a[0]
+        z = emcee_chain(I, [o], {"flat": B(True)}, n)
+        return I.call(o.f["log_prob_fn"], [z] + list(o.f["args"].items), {}, n)
 
     reg.handlers["emcee.EnsembleSampler"] = emcee_sampler
     reg.handlers["EmceeKernel.run_mcmc"] = emcee_run
     reg.handlers["EmceeKernel.get_chain"] = emcee_chain
+    reg.handlers["EmceeKernel.get_log_prob"] = emcee_log_prob
     reg.handlers["EmceeKernel.get_autocorr_time"] = lambda I, a, k, n: R(z3.Real(fresh("autocorr")))
 
 
